@@ -430,7 +430,14 @@ impl ScannedResp {
 
 /// C09/P4: compare the outcome sequence with the scan. `Err(description)` = something was
 /// fabricated, lost, or a malformed line was not rejected.
-pub fn check_against_scan(scan: &Scan, out: &Outcome) -> Result<(), String> {
+pub fn check_against_scan(scan: &Scan, out: &Outcome, silent: bool) -> Result<(), String> {
+    // with a peer that stays connected and silent, "the stream ends here" becomes "the
+    // operation waits": a clean end and an unexpected end of stream both turn into `Starved`
+    let (clean_end, unexpected_end) = if silent {
+        (Terminal::Starved, Terminal::Starved)
+    } else {
+        (Terminal::CleanEof, Terminal::UnexpectedEof)
+    };
     let actual = &out.responses;
     for (ri, resp) in scan.responses.iter().enumerate() {
         if ri < actual.len() {
@@ -475,14 +482,13 @@ pub fn check_against_scan(scan: &Scan, out: &Outcome) -> Result<(), String> {
     }
     let tail_grey = has_grey(&scan.tail);
     let ok = match &scan.trailer {
-        Trailer::Clean => out.terminal == Terminal::CleanEof,
+        Trailer::Clean => out.terminal == clean_end,
         Trailer::Reject(_) => out.terminal == Terminal::Invalid,
         Trailer::PartialValid => {
-            out.terminal == Terminal::UnexpectedEof
-                || (tail_grey && out.terminal == Terminal::Invalid)
+            out.terminal == unexpected_end || (tail_grey && out.terminal == Terminal::Invalid)
         }
         Trailer::PartialEither => {
-            out.terminal == Terminal::UnexpectedEof || out.terminal == Terminal::Invalid
+            out.terminal == unexpected_end || out.terminal == Terminal::Invalid
         }
     };
     if ok {
